@@ -15,6 +15,7 @@ import Osmium.Lemmas.QueueSM
 import Osmium.Lemmas.PoolSM
 import Osmium.Lemmas.PoolSM2Dtor
 import Osmium.Lemmas.PoolSM2Rank2
+import Osmium.Lemmas.PoolSMOutcome
 
 namespace Osmium.C19
 
@@ -562,6 +563,106 @@ theorem pool_destructor_step_guards (c : PoolSM.Cfg) (s s' : PoolSM.State) (d w 
     exact h.1.2.2
 
 
+/-! ## the outcome of a task: value, exception derived from std::exception, any other type -/
+
+/-- Result OR EXCEPTION arrives in the future — for every kind of outcome (`PoolSM.Outcome`:
+    a value, a thrown object derived from std::exception, a thrown object of any other type),
+    any number of workers and submitters, any interleaving.  In every reachable state:
+    (1) the future of every submitted job is either not ready with the job not run, or holds
+        EXACTLY the job's own outcome — same kind, same class/type, same payload — with the job
+        run once; `future.get()` is then enabled with that outcome and with no other;
+    (2) a `taskRun` step executes a submitted job that had not run, and transfers its outcome
+        into the job's future whatever its kind;
+    (3) no other future is affected: any step that changes the shared state of job `j`'s
+        future is `taskRun` of job `j` itself;
+    (4) the wrapper is what makes this true: the pool with the task wrapper explicit
+        (`PoolSM.xmachine`) and `std::packaged_task` as the wrapper has exactly the runs of the
+        pool machine and never reaches `terminated`; for ANY wrapper a `taskRun` step
+        terminates the process iff the job throws an object the wrapper's handler does not
+        catch, and otherwise the future holds the outcome and the worker is back in its loop. -/
+theorem pool_outcome_in_future (c : PoolSM.Cfg) (s : PoolSM.State) (h : (PoolSM.machine c).Reachable s) :
+    (∀ id out, (id, out) ∈ s.submitted →
+      ((s.runCount id = 0 ∧ s.future id = none) ∨ (s.runCount id = 1 ∧ s.future id = some out)) ∧
+      (∀ t o s', (PoolSM.machine c).Step s (.futureGet t id o) s' → o = out) ∧
+      (s.runCount id = 1 → ∀ t, (PoolSM.machine c).Step s (.futureGet t id out) s)) ∧
+    (∀ w id s', (PoolSM.machine c).Step s (.taskRun w id) s' →
+      ∃ out, (id, out) ∈ s.submitted ∧ s.wpc w = .running id out ∧ s.runCount id = 0 ∧ s.future id = none ∧
+        s'.runCount id = 1 ∧ s'.future id = some out) ∧
+    (∀ e s', (PoolSM.machine c).Step s e s' → ∀ j, s'.future j ≠ s.future j → ∃ w, e = .taskRun w j) ∧
+    ((∀ x, (PoolSM.xmachine PoolSM.Wrapper.packagedTask c).Reachable x →
+        x.terminated = none ∧ (PoolSM.machine c).Reachable x.base) ∧
+     (PoolSM.xmachine PoolSM.Wrapper.packagedTask c).Reachable ⟨s, none⟩ ∧
+     (∀ wr x x' w id, PoolSM.xstep? wr c x (.taskRun w id) = some x' →
+        ∃ out, x.base.wpc w = .running id out ∧
+          (x'.terminated.isSome = true ↔ (out.isException = true ∧ wr.catches out = false)) ∧
+          (x'.terminated = none → x'.base.future id = some out ∧ x'.base.wpc w = .loop))) := by
+  have hplace := fun id out hs => PoolSM.job_place c s h (id := id) (out := out) hs
+  have hstate : ∀ id out, (id, out) ∈ s.submitted →
+      (s.runCount id = 0 ∧ s.future id = none) ∨ (s.runCount id = 1 ∧ s.future id = some out) := by
+    intro id out hs
+    rcases hplace id out hs with ⟨_, _, _, hn⟩ | ⟨_, _, _, hn⟩ | ⟨_, _, _, hn⟩ | ⟨_, _, _, hr⟩
+    · exact .inl hn
+    · exact .inl hn
+    · exact .inl hn
+    · exact .inr hr
+  refine ⟨fun id out hs => ⟨hstate id out hs, ?_, ?_⟩, ?_, ?_, ?_⟩
+  · intro t o s' hst
+    simp only [Machine.Step, PoolSM.machine, PoolSM.step?] at hst
+    split at hst
+    · rename_i hf
+      rcases hstate id out hs with ⟨_, h0⟩ | ⟨_, h1⟩
+      · rw [h0] at hf; cases hf
+      · rw [h1] at hf; exact (Option.some.inj hf).symm
+    · cases hst
+  · intro h1 t
+    rcases hstate id out hs with ⟨h0, _⟩ | ⟨_, hf⟩
+    · omega
+    · simp [Machine.Step, PoolSM.machine, PoolSM.step?, hf]
+  · intro w id s' hst
+    obtain ⟨out, hw, hrc, hfut, _, _, _⟩ := pool_task_run_step c s s' w id hst
+    have hh : PoolSM.InHands s id out := ⟨w, .inr hw⟩
+    have hs := PoolSM.located_submitted c s h (.inr (.inr hh))
+    rcases hplace id out hs with ⟨_, _, hn, _⟩ | ⟨_, _, hn, _⟩ | ⟨_, _, _, hn⟩ | ⟨_, _, hn, _⟩
+    · exact absurd hh hn
+    · exact absurd hh hn
+    · exact ⟨out, hs, hw, hn.1, hn.2, by rw [hrc, hn.1], hfut⟩
+    · exact absurd hh hn
+  · intro e s' hst j hj
+    exact PoolSM.future_changed_by_own_run c s s' e hst j hj
+  · exact ⟨fun x hx => PoolSM.xreachable_packagedTask c x hx, PoolSM.reachable_xpackagedTask c s h,
+      fun wr x x' w id hx => PoolSM.xstep_terminates_iff wr c x x' w id hx⟩
+
+/-- A throwing task never removes a worker (any outcome kind, any interleaving, any pool size):
+    (1) a `taskRun` step — whatever the job returns or throws — puts the running worker back
+        into its loop (`wait_and_pop` for the next task) and changes no other worker, no exit
+        list, no join list, not the destructor, not the queue: the list of live workers is
+        the same before and after;
+    (2) until the destructor starts ALL workers of the pool are live: none has exited, none is
+        about to exit, none holds a stop task — `liveWorkers = workers`, so their number is the
+        pool size N whatever tasks have run;
+    (3) afterwards a worker only ever leaves through a stop task popped from the work queue
+        (one per worker, pushed by the destructor) — never through a task. -/
+theorem worker_survives_task_exception (c : PoolSM.Cfg) (s : PoolSM.State)
+    (h : (PoolSM.machine c).Reachable s) :
+    (∀ w id s', (PoolSM.machine c).Step s (.taskRun w id) s' →
+      s'.wpc w = .loop ∧ (∀ u, u ≠ w → s'.wpc u = s.wpc u) ∧ s'.exitedL = s.exitedL ∧
+      s'.joined = s.joined ∧ s'.dtor = s.dtor ∧ s'.q = s.q ∧
+      PoolSM.liveWorkers c s' = PoolSM.liveWorkers c s) ∧
+    (s.dtor = .notStarted →
+      PoolSM.liveWorkers c s = c.workers ∧ s.exitedL = [] ∧
+      ∀ w, s.wpc w ≠ .got (some .stop) ∧ s.wpc w ≠ .stopping ∧ s.wpc w ≠ .exited) ∧
+    (∀ w, (s.wpc w = .stopping ∨ s.wpc w = .exited) → ∃ t, (w, (t, PoolSM.Task.stop)) ∈ s.q.popped) := by
+  refine ⟨fun w id s' hst => PoolSM.taskRun_workers c s s' w id hst, fun hd => ⟨?_, ?_, ?_⟩, ?_⟩
+  · exact PoolSM.liveWorkers_before_dtor c s h hd
+  · cases he : s.exitedL with
+    | nil => rfl
+    | cons w rest =>
+      have : w ∈ s.exitedL := by rw [he]; exact List.mem_cons_self
+      exact absurd (((PoolSM.inv_exitedL c s h).1 w).mp this) (PoolSM.all_workers_live_before_dtor c s h hd w).2.2
+  · exact PoolSM.all_workers_live_before_dtor c s h hd
+  · intro w hw
+    exact PoolSM.inv_stop_link c s h w (.inr hw)
+
 /-! ## non-vacuity for the pool: a complete life of a pool (evaluated by the kernel) -/
 
 /-- run a pool trace from the initial state -/
@@ -592,10 +693,10 @@ def poolLife : List PoolSM.Ev :=
    .q (.pushEnter 5 (.job 7 (.value 42))), .q (.pushTest 5 true), .q (.pushSize 5 0),
    .q (.pushLocked 5 1 (some 2)),
    .q (.popNow 1 1 (some (5, .job 7 (.value 42)))), .q (.popRewait 2), .workerGot 1 true,
-   .q (.pushEnter 5 (.job 8 (.exc 3))), .q (.pushTest 5 true), .q (.pushSize 5 0),
+   .q (.pushEnter 5 (.job 8 (.stdExc 1 3))), .q (.pushTest 5 true), .q (.pushSize 5 0),
    .q (.pushLocked 5 1 (some 2)),
    .taskRun 1 7, .futureGet 5 7 (.value 42),
-   .q (.popWake 2 1 (some (5, .job 8 (.exc 3)))), .workerGot 2 true,
+   .q (.popWake 2 1 (some (5, .job 8 (.stdExc 1 3)))), .workerGot 2 true,
    .dtorStart 9,
    .q (.pushEnter 9 .stop), .q (.pushTest 9 true), .q (.pushSize 9 0), .q (.pushLocked 9 1 none),
    .q (.pushEnter 9 .stop), .q (.pushTest 9 true), .q (.pushSize 9 1), .q (.pushFullWaited 9 1),
@@ -603,20 +704,61 @@ def poolLife : List PoolSM.Ev :=
    .dtorPushed 9,
    .taskRun 2 8, .q (.popNow 2 1 (some (9, .stop))), .workerGot 1 true, .workerGot 2 true,
    .workerExit 2, .workerExit 1, .dtorJoin 9 1, .dtorJoin 9 2, .dtorDone 9,
-   .futureGet 5 8 (.exc 3)]
+   .futureGet 5 8 (.stdExc 1 3)]
 
 /-- the hypotheses of the termination clauses (`s.dtor = .done`, `c.workers ≠ []`, a submitted
     job) are satisfiable -/
 example : ∃ s, (PoolSM.machine ⟨[1, 2], ⟨1, false⟩⟩).Reachable s ∧
-    (decide (s.dtor = .done) && decide (s.submitted = [(7, .value 42), (8, .exc 3)])
+    (decide (s.dtor = .done) && decide (s.submitted = [(7, .value 42), (8, .stdExc 1 3)])
       && decide (s.runCount 7 = 1) && decide (s.runCount 8 = 1)
-      && decide (s.future 8 = some (.exc 3)) && decide (s.q.items = [])) = true :=
+      && decide (s.future 8 = some (.stdExc 1 3)) && decide (s.q.items = [])) = true :=
   pool_trace_witness _ poolLife _ (by decide)
 
 /-- the hypotheses of `pool_destructor_terminates` (distinct worker threads, destructor started,
     not yet returned) are satisfiable: the state right after `dtorStart`, one worker holding a job -/
 example : [1, 2].Nodup ∧ ∃ s, (PoolSM.machine ⟨[1, 2], ⟨1, false⟩⟩).Reachable s ∧
-    (decide (s.dtor = .pushing 0) && decide (s.wpc 2 = .running 8 (.exc 3))) = true :=
+    (decide (s.dtor = .pushing 0) && decide (s.wpc 2 = .running 8 (.stdExc 1 3))) = true :=
   ⟨by decide, pool_trace_witness _ (poolLife.take 17) _ (by decide)⟩
+
+/-- a pool life with one task of every outcome kind: a value (job 1), an exception derived from
+    std::exception (job 2), exceptions of other types (jobs 3 and 4: say an `int` and a struct),
+    run by ONE worker one after the other — the worker survives all of them — then destroyed -/
+def poolKinds : List PoolSM.Ev :=
+  let sub (id : Nat) (o : PoolSM.Outcome) : List PoolSM.Ev :=
+    [.q (.pushEnter 5 (.job id o)), .q (.pushTest 5 true), .q (.pushLocked 5 1 none),
+     .q (.popNow 1 1 (some (5, .job id o))), .workerGot 1 true, .taskRun 1 id]
+  sub 1 (.value 42) ++ sub 2 (.stdExc 0 7) ++ sub 3 (.otherExc 0 9) ++ sub 4 (.otherExc 1 11) ++
+  [.futureGet 5 3 (.otherExc 0 9), .futureGet 5 2 (.stdExc 0 7),
+   .dtorStart 9, .q (.pushEnter 9 .stop), .q (.pushTest 9 true), .q (.pushLocked 9 1 none), .dtorPushed 9,
+   .q (.popNow 1 1 (some (9, .stop))), .workerGot 1 true, .workerExit 1, .dtorJoin 9 1, .dtorDone 9,
+   .futureGet 5 4 (.otherExc 1 11), .futureGet 5 1 (.value 42)]
+
+/-- … is a run of the pool machine (hypotheses of `pool_outcome_in_future` /
+    `worker_survives_task_exception` with every kind of outcome are satisfiable), every future
+    holds its own outcome -/
+example : ∃ s, (PoolSM.machine ⟨[1], ⟨0, false⟩⟩).Reachable s ∧
+    (decide (s.dtor = .done) && decide (s.submitted = [(1, .value 42), (2, .stdExc 0 7), (3, .otherExc 0 9), (4, .otherExc 1 11)])
+      && decide (s.future 1 = some (.value 42)) && decide (s.future 2 = some (.stdExc 0 7))
+      && decide (s.future 3 = some (.otherExc 0 9)) && decide (s.future 4 = some (.otherExc 1 11))
+      && decide (s.runCount 3 = 1) && decide (s.exitedL = [1])) = true :=
+  pool_trace_witness _ poolKinds _ (by decide)
+
+/-- before the destructor, after three throwing tasks: the worker is live and in its loop -/
+example : ∃ s, (PoolSM.machine ⟨[1], ⟨0, false⟩⟩).Reachable s ∧
+    (decide (s.dtor = .notStarted) && decide (s.wpc 1 = .loop) && decide (s.runCount 4 = 1)
+      && decide (PoolSM.liveWorkers ⟨[1], ⟨0, false⟩⟩ s = [1])) = true :=
+  pool_trace_witness _ (poolKinds.take 24) _ (by decide)
+
+/-- The wrapper matters (clause 4 of `pool_outcome_in_future` is not vacuous): the SAME run with
+    a wrapper whose handler is `catch (const std::exception&)` gets through the value and the
+    std::exception-derived job and is terminated by job 3 — its exception leaves the worker's
+    thread function, its future never becomes ready, job 4 is lost with the process. -/
+example : ((poolKinds.take 18).foldlM (PoolSM.xstep? PoolSM.Wrapper.stdExceptionOnly ⟨[1], ⟨0, false⟩⟩) PoolSM.xinit).map
+      (fun x => decide (x.terminated = some (1, 3, .otherExc 0 9)) && decide (x.base.future 3 = none)
+        && decide (x.base.future 2 = some (.stdExc 0 7)) && decide (x.base.runCount 3 = 1)) = some true ∧
+    ((poolKinds.take 19).foldlM (PoolSM.xstep? PoolSM.Wrapper.stdExceptionOnly ⟨[1], ⟨0, false⟩⟩) PoolSM.xinit).isNone = true ∧
+    ((poolKinds.foldlM (PoolSM.xstep? PoolSM.Wrapper.packagedTask ⟨[1], ⟨0, false⟩⟩) PoolSM.xinit).map
+      (fun x => decide (x.terminated = none) && decide (x.base.dtor = .done))) = some true := by
+  refine ⟨by decide, by decide, by decide⟩
 
 end Osmium.C19
